@@ -70,6 +70,7 @@ var _ *openfgav1.Userset
 //@                                     && old(old(wg.edges[nodeID])[i].weights[k]) == old(wg.nodes[nodeID]).weights[k]))
 //@   ensures fresh_map: err == nil ==> fresh(old(wg.nodes[nodeID]).weights)
 //@   ensures frame_nodes: forall n *WeightedAuthorizationModelNode :: n != old(wg.nodes[nodeID]) ==> n.weights == old(n.weights)
+//@   ensures in_range: err == nil ==> weightsInRange(old(wg.nodes[nodeID]).weights)
 //@   ensures frame_error: err != nil ==> old(wg.nodes[nodeID]).weights == old(wg.nodes[nodeID].weights)
 //@   loop 1 invariant fresh(weights) && weights != nil
 //@   loop 1 invariant forall k string :: has(weights, k) <==> (exists i int :: 0 <= i && i < $i && has(edges[i].weights, k))
@@ -101,6 +102,7 @@ var _ *openfgav1.Userset
 //@                              ==> (exists i int :: 0 <= i && i < len(old(wg.edges[nodeID])) && has(old(old(wg.edges[nodeID])[i].weights), k)
 //@                                     && old(old(wg.edges[nodeID])[i].weights[k]) == old(wg.nodes[nodeID]).weights[k]))
 //@   ensures frame_nodes: forall n *WeightedAuthorizationModelNode :: n != old(wg.nodes[nodeID]) ==> n.weights == old(n.weights)
+//@   ensures in_range: err == nil ==> weightsInRange(old(wg.nodes[nodeID]).weights)
 //@   loop 1 invariant fresh(weights) && weights != nil
 //@   loop 1 invariant forall k string :: has(weights, k) <==> (exists i int :: 0 <= i && i < $i && i < len(edges) - 1 && has(edges[i].weights, k))
 //@   loop 1 invariant forall k string, i int :: 0 <= i && i < $i && has(edges[i].weights, k) && has(weights, k) ==> edges[i].weights[k] <= weights[k]
@@ -130,6 +132,7 @@ var _ *openfgav1.Userset
 //@   ensures value_is_upper_bound: err == nil ==> (forall k string, i int :: 0 <= i && i < len(old(wg.edges[nodeID])) && has(old(wg.nodes[nodeID]).weights, k)
 //@                              ==> old(old(wg.edges[nodeID])[i].weights[k]) <= old(wg.nodes[nodeID]).weights[k])
 //@   ensures frame_nodes: forall n *WeightedAuthorizationModelNode :: n != old(wg.nodes[nodeID]) ==> n.weights == old(n.weights)
+//@   ensures in_range: err == nil ==> weightsInRange(old(wg.nodes[nodeID]).weights)
 //@   loop 1 invariant fresh(weights) && weights != nil
 //@   loop 1 invariant forall k string :: has(weights, k) <==> ($i > 0 && (forall i int :: 0 <= i && i < $i ==> has(edges[i].weights, k)))
 //@   loop 1 invariant forall k string, i int :: 0 <= i && i < $i && has(weights, k) ==> edges[i].weights[k] <= weights[k]
